@@ -116,7 +116,7 @@ def check_c16(prop, tier):
         plans = PLANS[:4] if tier == "quick" else PLANS
         items = [({"op": e["op"], "args": e["args"], "pre": e["pre"]}, r, w) for (r, w) in plans for e in emitted]
         items += rand_edit_vectors(sz["rand"], common.SEED)
-        events = parallel(_edit_job, items, work)
+        events = common.split_broken(res, prop, parallel(common.Guarded(_edit_job), items, work))
         events += A.run_histories(sz["rand"] // 10, common.SEED, len(events), work)
         for ev in events:
             if ev["pre"]:
@@ -217,8 +217,9 @@ def check_c17(prop, tier):
         plans = PLANS[:3] if tier == "quick" else PLANS
         items = [({"op": e["op"], "args": e["args"], "pre": e["pre"]}, r, w) for (r, w) in plans for e in emitted]
         items += rand_read_vectors(sz["rand"], common.SEED)
-        events = parallel(_edit_job, items, work)
-        events += parallel(_split_job, rand_split_vectors(sz["rand"] // 8, common.SEED), work)
+        events = parallel(common.Guarded(_edit_job), items, work)
+        events += parallel(common.Guarded(_split_job), rand_split_vectors(sz["rand"] // 8, common.SEED), work)
+        events = common.split_broken(res, prop, events)
         for ev in events:
             a = ev["args"]
             key = (ev["op"], ev["rate"], ev["width"], ev["st"], a.get("gen"), len(a.get("keep", [])), len(a.get("delete", [])),
@@ -254,18 +255,20 @@ def run_zc_mc(sz, work, res):
     return common.parse_json_lines(r["out"])
 
 
+_HANGS = [0]
+
+
 def _zc_job(job):
     vecs, start, workdir = job
     out = []
-    hangs = 0
     for i, v in enumerate(vecs):
         kind = v[0]
         if kind == "find":
-            if hangs >= 2:
-                continue            # non-termination is established; every further hang would cost the full time limit
+            if _HANGS[0] >= 2:
+                continue            # non-termination is established (per worker process); every further hang costs the time limit
             _, samples, t, step, rate, width, pred = v
             ev = A.run_findzc(samples, t, step, rate, width, start + i, limit=2)
-            hangs += 1 if ev["hung"] else 0
+            _HANGS[0] += 1 if ev["hung"] else 0
             ev["pred"] = pred
         elif kind == "tgzc":
             ev = A.run_tgzc(v[1], v[2], v[3], start + i)
@@ -363,7 +366,7 @@ def check_c18(prop, tier):
                               {"pc": e["pc"], "result": e["result"]}))
         items += rand_zc_vectors(sz, common.SEED)
         items += rand_tgzc_splice_vectors(sz, common.SEED)
-        events = parallel(_zc_job, items, work)
+        events = common.split_broken(res, prop, parallel(common.Guarded(_zc_job), items, work))
         ndrift = 0
         for ev in events:
             p = ev.pop("pred", None)
